@@ -82,6 +82,27 @@ DESC = {
     "C19-D": ("activity update moved after the unknown-method early return", "request with a live session id whose method has no handler, then expiry between the two idle times"),
     "C20-C": ("server_params not reset per loop iteration in the runner", "server name list with an unknown name after a valid one"),
     "C20-D": ("loader drops env vars with falsy values", "configured env with an empty-string value"),
+    # ---- wave 3 (labels E, F) -------------------------------------------------------------------
+    "C01-E": ("request write moved inside `fail_after(timeout)`", "back-pressure on the write stream (peer takes the request late)"),
+    "C01-F": ("stdio main-stream delivery with send_nowait for every message", "100 unread messages when the response is routed"),
+    "C03-E": ("MCPClient.initialize sets `initialized` before awaiting, resets only on Exception", "caller's own cancellation mid-handshake, then another operation on the same client"),
+    "C03-F": ("module-level shared InitializeParams re-read after the answer arrives", "two handshakes overlapping in one process, server 1 answering connection 2's proposal"),
+    "C05-E": ("partial-line buffer and decoder kept on the client instance", "same StdioClient entered again after a connection that ended with an unterminated tail"),
+    "C05-F": ("legacy per-request delivery and main-stream delivery in one try block", "a per-request stream whose receiving end was closed before the answer arrives"),
+    "C06-E": ("send_json() sends through a cloned send handle kept on the client", "send_json() used at least once, then the owner closes the write stream"),
+    "C06-F": ("pre-serialised strings folded with `''.join(message.splitlines())`", "pre-serialised string carrying raw U+2028/U+2029/U+0085"),
+    "C11-E": ("outgoing messages dispatched in their own tasks", "two pipelined requests, the first answered late with a message-less body"),
+    "C11-F": ("`text.splitlines()` in the SSE body parser", "raw U+2028/U+2029/U+0085 in an SSE JSON payload"),
+    "C12-E": ("incoming SSE messages routed with send_nowait", "100 undrained messages when another is routed"),
+    "C12-F": ("`rstrip('\\r')` removed from the event-stream line handling", "CRLF stream with a typed event followed by an untyped one"),
+    "C14-E": ("progress token injected with `setdefault`", "params that already carry `_meta.progressToken` (dict reused from an earlier call)"),
+    "C14-F": ("cancelled notification sent under a shielded scope", "write stream full when the cancel is noticed, consumer stalled past the deadline"),
+    "C15-E": ("SSE event type reset only when data was dispatched (HTTP transport)", "typed event without data followed by an untyped event"),
+    "C15-F": ("stdio notification path uses send_nowait for the main stream too", "100 unread messages when a notification arrives"),
+    "C16-E": ("`_closed` flag makes __aexit__ idempotent but is never reset", "the same StdioClient object used for a second connection"),
+    "C16-F": ("connect_to_server with explicit enter/exit and `except Exception` around the handshake", "cancellation or timeout while initialize is still waiting"),
+    "C18-E": ("id filter skips only when `msg_id is not None`", "an error response with id null while a request is outstanding"),
+    "C18-F": ("stdio `_route_message` tests `if not msg_id`", "response id 0 or \"\" with per-request streams"),
 }
 
 
